@@ -33,6 +33,9 @@ CROSS_RUNS_THOROUGH = 64
 RUN_TIMEOUT_S = 600
 
 MODES = {"true": True, "false": False, "none": None}
+# faults after which the solver has visibly delivered nothing: an answer given anyway must still be the minimal one
+HARD_FAILURES = ("exe_missing", "exit_before", "killed_before", "exit_after", "killed_after", "sol_missing", "sol_empty",
+                 "mps_enospc", "mps_eio", "tmpdir_gone")
 Z2SYM = {z: s for s, z in C.ELEMENTS.items()}
 
 
@@ -251,7 +254,8 @@ def gen_case(seed, run, tier):
                 prod.append(rw.choice(cand))
     elif variant == "fractional":
         i = rw.randrange(len(species))
-        species[i]["comp"] = {z: (v / 2.0 if z != "0" else v) for z, v in species[i]["comp"].items()}
+        div = rw.choice([2.0, 2.0, 4.0, 5.0, 10.0, 10.0, 8.0])
+        species[i]["comp"] = {z: (v / div if z != "0" else v) for z, v in species[i]["comp"].items()}
     elif variant == "electron":
         # add a charge-only species (the electron) and re-balance charge with it
         species.append({"key": "e-", "comp": {"0": -1}})
@@ -264,9 +268,9 @@ def gen_case(seed, run, tier):
     if container == "permuted":
         rw.shuffle(reac)
         rw.shuffle(prod)
-    subs = "none" if formula_mode else "explicit"
+    subs = "none" if formula_mode else rs.choice(["explicit", "explicit", "factory"])
     if formula_mode and rs.random() < 0.3:
-        subs = rs.choice(["string", "explicit"])
+        subs = rs.choice(["string", "explicit", "factory"])
     calls = []
     if variant == "big":
         formula_mode = formula_mode  # keys as generated
@@ -278,6 +282,13 @@ def gen_case(seed, run, tier):
     else:
         for m in ("true", "false", "none"):
             calls.append({"mode": m, "dup": False})
+    if rf.random() < 0.35:
+        for c in calls:
+            if c["mode"] == "none":
+                c["cold"] = [rf.choice([{"inv": 0, "kind": "sol_torn", "at": rf.randint(60, 200)}, {"inv": 0, "kind": "sol_drop_row", "var": 0},
+                                        {"inv": 0, "kind": "sol_perturb", "var": 1, "d": 1}, {"inv": 0, "kind": "sol_empty"},
+                                        {"inv": 0, "kind": "killed_after"}, {"inv": 0, "kind": "sol_scale", "m": 2}])]
+                break
     enum = {"torn": 24 if run % 10 else "all", "pairs": 0 if tier == "quick" else 6, "fseed": rf.randrange(1 << 30)}
     if tier == "thorough":
         enum["torn"] = "all" if run % 3 == 0 else 64
@@ -364,6 +375,9 @@ def _mk_args(case, call):
             for s in case["species"])
     elif case["subs"] == "string":
         kw["substances"] = " ".join(s["key"] for s in case["species"])
+    elif case["subs"] == "factory":
+        table = {s["key"]: {int(z): v for z, v in s["comp"].items() if v} for s in case["species"]}
+        kw["substance_factory"] = lambda key: Substance(key, composition=dict(table[key]))
     return r, p, kw
 
 
@@ -501,7 +515,8 @@ def judge(case, call, rec, faulted):
             raise core.HarnessError("ground truth says infeasible but %s balances %s" % (iv, t["keys"]))
         if t["d"] == 1 and iv != t["ray"]:
             out.append(core.violation("not_unique_ray", "returned %s, the unique minimal solution is %s" % (iv, t["ray"]), sig))
-        if t["d"] >= 2 and mode == "none" and not faulted:
+        hard = bool(rec["faults"]) and all(f["kind"] in HARD_FAILURES for f in rec["faults"])
+        if t["d"] >= 2 and mode == "none" and (not faulted or hard) and not dup:
             bound = sum(iv)
             best, wit = NS.min_positive_sum(t["A"], len(iv), bound)
             if best is not None and best < bound:
@@ -696,6 +711,8 @@ def execute(case):
         for v in vs:
             explicit = {k: case[k] for k in ("property", "variant", "species", "reac", "prod", "container", "subs", "witness") if k in case}
             explicit["calls"] = [dict(call, faults=[dict(f) for f in faults])]
+            if not faults and call.get("cold"):
+                explicit["calls"][0]["cold"] = [dict(f) for f in call["cold"]]
             explicit["enumerate"] = None
             v["case"] = explicit
             viols.append(v)
@@ -738,6 +755,10 @@ def execute(case):
 
     for call in case["calls"]:
         faults0 = call.get("faults") or []
+        for cold in call.get("cold", []) if not faults0 else []:
+            # the solver misbehaves on the very first time this problem is solved in the process ...
+            one(dict(call, cold=None), [dict(cold)])
+        # ... and the next, healthy call is judged as strictly as any fault-free call
         rec = one(call, faults0)
         if not faults0:
             r = _hist_rec(rec)
